@@ -32,6 +32,8 @@ type file struct {
 	offset int64
 	flag   int
 	closed bool
+	// unsaved is set while the last write back to the store failed: the handle's contents are ahead of the store's
+	unsaved bool
 }
 
 type fileData struct {
@@ -215,12 +217,15 @@ func (f *file) saveIfLinked() error {
 	case errors.Is(err, hackpadfs.ErrNotExist):
 		return nil
 	case err != nil:
+		f.unsaved = true
 		return err
 	case current.Mode().IsDir() != f.Mode().IsDir():
 		// the name belongs to something else by now, e.g. a directory made after this file was removed. Leave it alone
 		return nil
 	}
-	return f.save()
+	err = f.save()
+	f.unsaved = err != nil
+	return err
 }
 
 func (f *fileData) info() hackpadfs.FileInfo {
@@ -433,7 +438,10 @@ func (f *file) truncate(size int64) error {
 	case size < 0:
 		return &hackpadfs.PathError{Op: "truncate", Path: f.path, Err: hackpadfs.ErrInvalid}
 	case size == length:
-		return nil
+		if !f.unsaved {
+			return nil
+		}
+		// an earlier write back failed: the store may still hold another length, so save again
 	case size > length:
 		data, err := f.Data()
 		if err != nil {
